@@ -293,6 +293,17 @@ def mutations(b, rng, per_kind):
     return out
 
 
+def heavy(frame):
+    """A frame that is (or may decode as) a request for an absurdly large key: a Cryptographic Length above 4096 bits.
+    The engine would start generating it (RSA 2^24 bits does not finish); that is resource use of a *valid* request,
+    not this property's subject, so the generator leaves such frames out."""
+    for off, tag, typ, ln, d in walk(frame):
+        if tag == 0x42002A and typ == 2 and len(frame) >= off + 12:
+            if not 0 <= struct.unpack('>i', frame[off + 8:off + 12])[0] <= 4096:
+                return True
+    return False
+
+
 def nested(depth, tag=0x420078, leaf=b''):
     body = leaf
     for _ in range(depth):
@@ -520,6 +531,9 @@ def run(ctx):
             keep = special_frames(rng, valid) + [(k, fr) for k, fr, _ in small] * 2
             bad = rng.sample(bad, cap - len(keep)) + keep
         bad += inflated if quick or len(inflated) < 6000 else rng.sample(inflated, 6000)
+        dropped = len(bad)
+        bad = [x for x in bad if not heavy(x[1])]
+        ctx.count('mutation.dropped-huge-key-length', dropped - len(bad))
         rng.shuffle(bad)
         probes = [x for x in valid if x[0] in ('get', 'create', 'locate', 'query', 'get_attributes', 'encrypt', 'batch2', 'get_attributes_unset')]
         pa, pb = pool.fresh(), pool.fresh()
